@@ -58,12 +58,19 @@ def run_props(facts_dir, props):
     return out
 
 
-def run_variant(patch, props, keep=False):
+class PatchDoesNotApply(Exception):
+    pass
+
+
+def run_variant(patch, props, keep=False, target=None):
     scratch = make_scratch()
     try:
-        apply_patch(scratch, patch)
         try:
-            facts = extract.extract_scratch(scratch)
+            apply_patch(scratch, patch)
+        except RuntimeError as e:
+            return {"_skipped": str(e)[:300]}
+        try:
+            facts = extract.extract_scratch(scratch, target=target)
         except extract.ExtractError as e:
             return {"_error": str(e)[-400:]}
         return run_props(facts, props)
@@ -84,47 +91,71 @@ def expectations(patch):
     return ex
 
 
-def run_kit(pid, verbose=True):
-    """Returns (n_ok, n_bad, report lines)."""
-    lines = []
-    n_ok = n_bad = 0
-    for patch in sorted(glob.glob(os.path.join(VERIF, "variants", pid, "*.patch"))):
+def _judge(patch, pid, res):
+    """-> list of (status, line) with status in ok/bad/skipped"""
+    ex = expectations(patch)
+    name = os.path.basename(patch)
+    out = []
+    if "_skipped" in res:
+        return [("skipped", "skip %s: patch does not apply to the current tree" % name)]
+    if "_error" in res:
+        return [("skipped", "skip %s: the patched tree does not build: %s" % (name, res["_error"][-200:].replace("\n", " ")))]
+    for kind, p, rule in ex:
+        rc, failed, _ = res[p]
+        if kind == "fires":
+            hit = [f for f in failed if (not rule) or (" " + rule + " ") in (" " + f + " ") or ("] " + rule) in f]
+            if rc == 1 and hit:
+                out.append(("ok", "ok   %s: %s fires %s (%d obligation(s)), e.g. %s" % (name, p, rule, len(hit), hit[0][:160])))
+            else:
+                out.append(("bad", "BAD  %s: expected %s to fire %s; rc=%d failed=%s" % (name, p, rule, rc, failed[:3])))
+        else:
+            if rc == 0:
+                out.append(("ok", "ok   %s: %s silent" % (name, p)))
+            else:
+                out.append(("bad", "BAD  %s: expected %s silent; failed=%s" % (name, p, failed[:3])))
+    return out
+
+
+def run_kit(pid, verbose=True, jobs=1):
+    """Applies every variants/<pid>/*.patch to a scratch copy of the current tree, extracts facts and runs the rules.
+    Returns (n_ok, n_bad, report lines, n_skipped)."""
+    from concurrent.futures import ThreadPoolExecutor
+    import queue
+    patches = sorted(glob.glob(os.path.join(VERIF, "variants", pid, "*.patch")))
+    slots = queue.Queue()
+    for i in range(max(1, jobs)):
+        slots.put(i)
+
+    def one(patch):
         ex = expectations(patch)
         props = sorted({e[1] for e in ex}) or [pid]
-        res = run_variant(patch, props)
-        name = os.path.basename(patch)
-        if "_error" in res:
-            n_bad += 1
-            lines.append("BAD  %s: scratch build failed: %s" % (name, res["_error"][-300:]))
-            continue
-        for kind, p, rule in ex:
-            rc, failed, _ = res[p]
-            if kind == "fires":
-                hit = [f for f in failed if (not rule) or (" " + rule + " ") in (" " + f + " ") or ("] " + rule) in f]
-                if rc == 1 and hit:
-                    n_ok += 1
-                    lines.append("ok   %s: %s fires %s (%d obligation(s)), e.g. %s" % (name, p, rule, len(hit), hit[0][:160]))
-                else:
-                    n_bad += 1
-                    lines.append("BAD  %s: expected %s to fire %s; rc=%d failed=%s" % (name, p, rule, rc, failed[:3]))
-            else:
-                if rc == 0:
-                    n_ok += 1
-                    lines.append("ok   %s: %s silent" % (name, p))
-                else:
-                    n_bad += 1
-                    lines.append("BAD  %s: expected %s silent; failed=%s" % (name, p, failed[:3]))
+        i = slots.get()
+        try:
+            tgt = extract.worker_target(i) if jobs > 1 else None
+            res = run_variant(patch, props, target=tgt)
+        finally:
+            slots.put(i)
+        return _judge(patch, pid, res)
+
+    with ThreadPoolExecutor(max_workers=max(1, jobs)) as pool:
+        results = list(pool.map(one, patches))
+    lines = []
+    n = {"ok": 0, "bad": 0, "skipped": 0}
+    for r in results:
+        for st, line in r:
+            n[st] += 1
+            lines.append(line)
     if verbose:
         for l in lines:
             print(l)
-    return n_ok, n_bad, lines
+    return n["ok"], n["bad"], lines, n["skipped"]
 
 
 if __name__ == "__main__":
     if sys.argv[1] == "run":
         res = run_variant(sys.argv[2], sys.argv[3:])
-        if "_error" in res:
-            print("BUILD ERROR", res["_error"])
+        if "_error" in res or "_skipped" in res:
+            print("BUILD ERROR", res.get("_error") or res.get("_skipped"))
             sys.exit(2)
         for p, (rc, failed, out) in res.items():
             print("== %s: %s" % (p, "FIRES" if rc == 1 else ("silent" if rc == 0 else "rc=%d" % rc)))
@@ -133,6 +164,7 @@ if __name__ == "__main__":
             if rc not in (0, 1):
                 print(out[-2000:])
     elif sys.argv[1] == "kit":
-        ok, bad, _ = run_kit(sys.argv[2])
-        print("kit %s: %d ok, %d bad" % (sys.argv[2], ok, bad))
+        jobs = int(sys.argv[3]) if len(sys.argv) > 3 else 1
+        ok, bad, _, skipped = run_kit(sys.argv[2], jobs=jobs)
+        print("kit %s: %d ok, %d bad, %d skipped" % (sys.argv[2], ok, bad, skipped))
         sys.exit(1 if bad else 0)
